@@ -147,6 +147,10 @@ type Runner struct {
 	// KillAt >= 0: SIGKILL this process at the KillAt-th point (child mode).
 	KillAt  int
 	npoints int
+	// creating: the store constructors are running on an empty directory
+	// (CreationPoints); a point is then announced BEFORE each index commit
+	// too, as the flat files are not wrapped yet.
+	creating bool
 }
 
 func (r *Runner) point(name, class string) {
@@ -171,6 +175,9 @@ type crashDB struct {
 }
 
 func (d *crashDB) Update(f func(tx walletdb.ReadWriteTx) error, reset func()) error {
+	if d.r.creating {
+		d.r.point("index/commit/before", "index-commit/before")
+	}
 	err := d.DB.Update(f, reset)
 	if d.r.curOp >= 0 {
 		d.r.point("index/commit/after", "index-commit/after")
@@ -389,6 +396,9 @@ func CopyDir(src, dst string) error {
 	}
 	for _, n := range []string{dbName, blockFile, filtFile} {
 		in, err := os.Open(filepath.Join(src, n))
+		if os.IsNotExist(err) && n != dbName {
+			continue // first start: a flat file that was not created yet
+		}
 		if err != nil {
 			return err
 		}
